@@ -1,0 +1,392 @@
+//! Verification hook (cargo feature `verif`): canonical, read-only text dump of every index
+//! table, for the external correspondence harness in /verif. Add-only; never called by ord.
+
+use super::*;
+
+fn outpoint_str(value: &OutPointValue) -> String {
+  OutPoint::load(*value).to_string()
+}
+
+fn satpoint_str(value: &SatPointValue) -> String {
+  SatPoint::load(*value).to_string()
+}
+
+fn hexs(bytes: &[u8]) -> String {
+  if bytes.is_empty() {
+    "-".into()
+  } else {
+    hex::encode(bytes)
+  }
+}
+
+impl Index {
+  /// One line per table row, tables in a fixed order, rows in key order (multimap values in
+  /// value order). Rows that are timing / commit bookkeeping are prefixed `bookkeeping`.
+  pub fn verif_dump(&self) -> Result<Vec<String>> {
+    let rtx = self.database.begin_read()?;
+    let mut out = Vec::new();
+
+    for result in rtx.open_table(HEIGHT_TO_BLOCK_HEADER)?.iter()? {
+      let (k, v) = result?;
+      out.push(format!(
+        "header {} {}",
+        k.value(),
+        Header::load(*v.value()).block_hash()
+      ));
+    }
+
+    for result in rtx.open_table(OUTPOINT_TO_UTXO_ENTRY)?.iter()? {
+      let (k, v) = result?;
+      let entry = v.value().parse(self);
+      let mut line = format!("utxo {} value={}", outpoint_str(k.value()), entry.total_value());
+      if self.index_sats {
+        let ranges = entry
+          .sat_ranges()
+          .chunks_exact(11)
+          .map(|chunk| {
+            let (start, end) = SatRange::load(chunk.try_into().unwrap());
+            format!("{start}-{end}")
+          })
+          .collect::<Vec<String>>();
+        line.push_str(&format!(" ranges={}", if ranges.is_empty() { "-".into() } else { ranges.join(",") }));
+      }
+      if self.index_addresses {
+        line.push_str(&format!(" script={}", hexs(entry.script_pubkey())));
+      }
+      if self.index_inscriptions {
+        let ins = entry
+          .parse_inscriptions()
+          .into_iter()
+          .map(|(seq, offset)| format!("{seq}@{offset}"))
+          .collect::<Vec<String>>();
+        line.push_str(&format!(" ins={}", if ins.is_empty() { "-".into() } else { ins.join(",") }));
+      }
+      out.push(line);
+    }
+
+    for result in rtx.open_table(SAT_TO_SATPOINT)?.iter()? {
+      let (k, v) = result?;
+      out.push(format!("sat2satpoint {} {}", k.value(), satpoint_str(v.value())));
+    }
+
+    for result in rtx.open_table(SEQUENCE_NUMBER_TO_INSCRIPTION_ENTRY)?.iter()? {
+      let (k, v) = result?;
+      let e = InscriptionEntry::load(v.value());
+      out.push(format!(
+        "entry {} id={} number={} charms={} fee={} height={} hidden={} parents={} sat={} seq={} timestamp={}",
+        k.value(),
+        e.id,
+        e.inscription_number,
+        e.charms,
+        e.fee,
+        e.height,
+        e.hidden,
+        if e.parents.is_empty() {
+          "-".into()
+        } else {
+          e.parents.iter().map(|p| p.to_string()).collect::<Vec<String>>().join(",")
+        },
+        e.sat.map(|s| s.n().to_string()).unwrap_or("-".into()),
+        e.sequence_number,
+        e.timestamp,
+      ));
+    }
+
+    for result in rtx.open_table(INSCRIPTION_ID_TO_SEQUENCE_NUMBER)?.iter()? {
+      let (k, v) = result?;
+      out.push(format!("id2seq {} {}", InscriptionId::load(k.value()), v.value()));
+    }
+
+    for result in rtx.open_table(INSCRIPTION_NUMBER_TO_SEQUENCE_NUMBER)?.iter()? {
+      let (k, v) = result?;
+      out.push(format!("num2seq {} {}", k.value(), v.value()));
+    }
+
+    for result in rtx.open_table(SEQUENCE_NUMBER_TO_SATPOINT)?.iter()? {
+      let (k, v) = result?;
+      out.push(format!("seq2satpoint {} {}", k.value(), satpoint_str(v.value())));
+    }
+
+    for result in rtx.open_multimap_table(SAT_TO_SEQUENCE_NUMBER)?.iter()? {
+      let (k, vs) = result?;
+      let mut vals = Vec::new();
+      for v in vs {
+        vals.push(v?.value().to_string());
+      }
+      out.push(format!("sat2seq {} {}", k.value(), vals.join(",")));
+    }
+
+    for result in rtx.open_multimap_table(SEQUENCE_NUMBER_TO_CHILDREN)?.iter()? {
+      let (k, vs) = result?;
+      let mut vals = Vec::new();
+      for v in vs {
+        vals.push(v?.value().to_string());
+      }
+      out.push(format!("children {} {}", k.value(), vals.join(",")));
+    }
+
+    for result in rtx
+      .open_table(COLLECTION_SEQUENCE_NUMBER_TO_LATEST_CHILD_SEQUENCE_NUMBER)?
+      .iter()?
+    {
+      let (k, v) = result?;
+      out.push(format!("collection2latest {} {}", k.value(), v.value()));
+    }
+
+    for result in rtx
+      .open_multimap_table(LATEST_CHILD_SEQUENCE_NUMBER_TO_COLLECTION_SEQUENCE_NUMBER)?
+      .iter()?
+    {
+      let (k, vs) = result?;
+      let mut vals = Vec::new();
+      for v in vs {
+        vals.push(v?.value().to_string());
+      }
+      out.push(format!("latest2collection {} {}", k.value(), vals.join(",")));
+    }
+
+    for result in rtx.open_table(GALLERY_SEQUENCE_NUMBERS)?.iter()? {
+      let (k, _) = result?;
+      out.push(format!("gallery {}", k.value()));
+    }
+
+    for result in rtx.open_table(HOME_INSCRIPTIONS)?.iter()? {
+      let (k, v) = result?;
+      out.push(format!("home {} {}", k.value(), InscriptionId::load(v.value())));
+    }
+
+    for result in rtx.open_table(HEIGHT_TO_LAST_SEQUENCE_NUMBER)?.iter()? {
+      let (k, v) = result?;
+      out.push(format!("height2lastseq {} {}", k.value(), v.value()));
+    }
+
+    for result in rtx.open_multimap_table(SCRIPT_PUBKEY_TO_OUTPOINT)?.iter()? {
+      let (k, vs) = result?;
+      let mut vals = Vec::new();
+      for v in vs {
+        vals.push(outpoint_str(&v?.value()));
+      }
+      out.push(format!("script2outpoints {} {}", hexs(k.value()), vals.join(",")));
+    }
+
+    for result in rtx.open_table(TRANSACTION_ID_TO_TRANSACTION)?.iter()? {
+      let (k, v) = result?;
+      out.push(format!("txid2tx {} {}", Txid::load(*k.value()), v.value().len()));
+    }
+
+    for result in rtx.open_table(RUNE_ID_TO_RUNE_ENTRY)?.iter()? {
+      let (k, v) = result?;
+      let e = RuneEntry::load(v.value());
+      let terms = match e.terms {
+        None => "-".to_string(),
+        Some(t) => format!(
+          "amount:{}/cap:{}/height:{}:{}/offset:{}:{}",
+          t.amount.map(|x| x.to_string()).unwrap_or("-".into()),
+          t.cap.map(|x| x.to_string()).unwrap_or("-".into()),
+          t.height.0.map(|x| x.to_string()).unwrap_or("-".into()),
+          t.height.1.map(|x| x.to_string()).unwrap_or("-".into()),
+          t.offset.0.map(|x| x.to_string()).unwrap_or("-".into()),
+          t.offset.1.map(|x| x.to_string()).unwrap_or("-".into()),
+        ),
+      };
+      out.push(format!(
+        "rune {} block={} burned={} divisibility={} etching={} mints={} number={} premine={} rune={} spacers={} symbol={} terms={} timestamp={} turbo={}",
+        RuneId::load(k.value()),
+        e.block,
+        e.burned,
+        e.divisibility,
+        e.etching,
+        e.mints,
+        e.number,
+        e.premine,
+        e.spaced_rune.rune.0,
+        e.spaced_rune.spacers,
+        e.symbol.map(|c| u32::from(c).to_string()).unwrap_or("-".into()),
+        terms,
+        e.timestamp,
+        e.turbo,
+      ));
+    }
+
+    for result in rtx.open_table(RUNE_TO_RUNE_ID)?.iter()? {
+      let (k, v) = result?;
+      out.push(format!("rune2id {} {}", k.value(), RuneId::load(v.value())));
+    }
+
+    for result in rtx.open_table(OUTPOINT_TO_RUNE_BALANCES)?.iter()? {
+      let (k, v) = result?;
+      let buffer = v.value();
+      let mut balances = Vec::new();
+      let mut i = 0;
+      while i < buffer.len() {
+        let ((id, balance), len) = Index::decode_rune_balance(&buffer[i..]).unwrap();
+        i += len;
+        balances.push(format!("{id}={balance}"));
+      }
+      out.push(format!("balances {} {}", outpoint_str(k.value()), balances.join(",")));
+    }
+
+    for result in rtx.open_table(TRANSACTION_ID_TO_RUNE)?.iter()? {
+      let (k, v) = result?;
+      out.push(format!("txid2rune {} {}", Txid::load(*k.value()), v.value()));
+    }
+
+    for result in rtx.open_table(SEQUENCE_NUMBER_TO_RUNE_ID)?.iter()? {
+      let (k, v) = result?;
+      out.push(format!("seq2runeid {} {}", k.value(), RuneId::load(v.value())));
+    }
+
+    for result in rtx.open_table(STATISTIC_TO_COUNT)?.iter()? {
+      let (k, v) = result?;
+      let key = k.value();
+      let name = match key {
+        0 => "Schema",
+        1 => "BlessedInscriptions",
+        2 => "Commits",
+        3 => "CursedInscriptions",
+        4 => "IndexAddresses",
+        5 => "IndexInscriptions",
+        6 => "IndexRunes",
+        7 => "IndexSats",
+        8 => "IndexTransactions",
+        9 => "InitialSyncTime",
+        10 => "LostSats",
+        11 => "OutputsTraversed",
+        12 => "ReservedRunes",
+        13 => "Runes",
+        14 => "SatRanges",
+        16 => "UnboundInscriptions",
+        17 => "LastSavepointHeight",
+        _ => "Unknown",
+      };
+      let bookkeeping = matches!(key, 2 | 9 | 17);
+      out.push(format!(
+        "{}statistic {} {}",
+        if bookkeeping { "bookkeeping " } else { "" },
+        name,
+        v.value()
+      ));
+    }
+
+    out.push(format!(
+      "bookkeeping write-transactions {}",
+      rtx
+        .open_table(WRITE_TRANSACTION_STARTING_BLOCK_COUNT_TO_TIMESTAMP)?
+        .len()?
+    ));
+
+    out.push(format!(
+      "flag unrecoverably_reorged {}",
+      self.unrecoverably_reorged.load(atomic::Ordering::Relaxed)
+    ));
+
+    Ok(out)
+  }
+}
+
+// ---------------------------------------------------------------------------------------------
+// C35 (storage encodings): thin wrappers over the crate-private `UtxoEntryBuf` / `UtxoEntry` /
+// `ParsedUtxoEntry` of `index::utxo_entry`.  Add-only; every function only calls the existing
+// methods in the order the updater calls them.
+// ---------------------------------------------------------------------------------------------
+
+/// `(index_sats, index_addresses, index_inscriptions)` as the entry codec reads them.
+pub fn utxo_flags(index: &Index) -> (bool, bool, bool) {
+  (index.index_sats, index.index_addresses, index.index_inscriptions)
+}
+
+fn utxo_entry_bytes(entry: &UtxoEntry) -> Vec<u8> {
+  <&UtxoEntry as redb::Value>::as_bytes(&entry).to_vec()
+}
+
+fn utxo_entry_ref(bytes: &[u8]) -> &UtxoEntry {
+  <&UtxoEntry as redb::Value>::from_bytes(bytes)
+}
+
+/// One `UtxoEntryBuf::push_*` call.
+pub enum UtxoOp {
+  Value(u64),
+  SatRanges(Vec<u8>),
+  ScriptPubkey(Vec<u8>),
+  Inscriptions(Vec<u8>),
+  Inscription(u32, u64),
+}
+
+/// `UtxoEntryBuf::new()`, the given pushes in order, then `as_ref()`; the stored bytes.
+pub fn utxo_ops(index: &Index, ops: &[UtxoOp]) -> Vec<u8> {
+  let mut buf = UtxoEntryBuf::new();
+  for op in ops {
+    match op {
+      UtxoOp::Value(value) => buf.push_value(*value, index),
+      UtxoOp::SatRanges(sat_ranges) => buf.push_sat_ranges(sat_ranges, index),
+      UtxoOp::ScriptPubkey(script_pubkey) => buf.push_script_pubkey(script_pubkey, index),
+      UtxoOp::Inscriptions(inscriptions) => buf.push_inscriptions(inscriptions, index),
+      UtxoOp::Inscription(sequence_number, offset) => {
+        buf.push_inscription(*sequence_number, *offset, index)
+      }
+    }
+  }
+  utxo_entry_bytes(buf.as_ref())
+}
+
+/// An entry built the way the updater builds one for the index's flag combination: sat ranges
+/// or value, then the script pubkey (address index), then the inscriptions (inscription index).
+pub fn utxo_build(
+  index: &Index,
+  value: u64,
+  sat_ranges: &[u8],
+  script_pubkey: &[u8],
+  inscriptions: &[(u32, u64)],
+) -> Vec<u8> {
+  let mut buf = UtxoEntryBuf::new();
+  if index.index_sats {
+    buf.push_sat_ranges(sat_ranges, index);
+  } else {
+    buf.push_value(value, index);
+  }
+  if index.index_addresses {
+    buf.push_script_pubkey(script_pubkey, index);
+  }
+  if index.index_inscriptions {
+    for (sequence_number, offset) in inscriptions {
+      buf.push_inscription(*sequence_number, *offset, index);
+    }
+  }
+  utxo_entry_bytes(buf.as_ref())
+}
+
+/// `UtxoEntry::parse`: `(sat_ranges, script_pubkey, inscriptions)`, each read through its
+/// accessor only when the corresponding flag is set.
+#[allow(clippy::type_complexity)]
+pub fn utxo_parse(
+  index: &Index,
+  bytes: &[u8],
+) -> (Option<Vec<u8>>, Option<Vec<u8>>, Option<Vec<u8>>) {
+  let parsed = utxo_entry_ref(bytes).parse(index);
+  (
+    index.index_sats.then(|| parsed.sat_ranges().to_vec()),
+    index.index_addresses.then(|| parsed.script_pubkey().to_vec()),
+    index.index_inscriptions.then(|| parsed.inscriptions().to_vec()),
+  )
+}
+
+/// `UtxoEntry::parse(..).total_value()`
+pub fn utxo_total_value(index: &Index, bytes: &[u8]) -> u64 {
+  utxo_entry_ref(bytes).parse(index).total_value()
+}
+
+/// `UtxoEntry::parse(..).parse_inscriptions()`
+pub fn utxo_parse_inscriptions(index: &Index, bytes: &[u8]) -> Vec<(u32, u64)> {
+  utxo_entry_ref(bytes).parse(index).parse_inscriptions()
+}
+
+/// `UtxoEntryBuf::merged(a, b, index)`; the stored bytes.
+pub fn utxo_merged(index: &Index, a: &[u8], b: &[u8]) -> Vec<u8> {
+  let merged = UtxoEntryBuf::merged(utxo_entry_ref(a), utxo_entry_ref(b), index);
+  utxo_entry_bytes(merged.as_ref())
+}
+
+/// `UtxoEntryBuf::empty(index)`; the stored bytes.
+pub fn utxo_empty(index: &Index) -> Vec<u8> {
+  utxo_entry_bytes(UtxoEntryBuf::empty(index).as_ref())
+}
